@@ -251,27 +251,22 @@ def r02c(R):
     R.check(lop, 'bool(pop()) x2', len(raw_pops) == 2 and len(wrapped) == 2,
             'logical operands are not both coerced with bool(): numbers in a '
             'logical position would not count as false-when-zero')
-    ifexp = [n for n in walk_own(lop.node) if isinstance(n, ast.IfExp)]
-    ok = False
-    if len(ifexp) == 1 and isinstance(ifexp[0].test, ast.Compare):
-        t = ifexp[0].test
-        v = A.try_fold(t.comparators[0], lop)
-        eq = isinstance(t.ops[0], (ast.Eq, ast.Is))
-        body_and = isinstance(ifexp[0].body, ast.BoolOp) and \
-            isinstance(ifexp[0].body.op, ast.And)
-        else_or = isinstance(ifexp[0].orelse, ast.BoolOp) and \
-            isinstance(ifexp[0].orelse.op, ast.Or)
-        body_or = isinstance(ifexp[0].body, ast.BoolOp) and \
-            isinstance(ifexp[0].body.op, ast.Or)
-        else_and = isinstance(ifexp[0].orelse, ast.BoolOp) and \
-            isinstance(ifexp[0].orelse.op, ast.And)
-        if isinstance(v, EnumVal):
-            is_and = (v.member == 'AND') == eq
-            ok = (body_and and else_or) if is_and else (body_or and else_and)
-    else:
-        raise AnalysisError('VmMath.logical_op: shape not recognised')
-    R.check(lop, ifexp[0], ok, 'Operator.AND / OR are evaluated with the wrong '
-            'connective')
+    # per operator member: which boolean connective computes the result
+    # (conditional expressions are if statements in the CFG)
+    op_param = lop.params[1] if len(lop.params) > 1 else 'operator'
+    ok = True
+    seen_ops = {}
+    for member, want in (('AND', ast.And), ('OR', ast.Or)):
+        nodes = A.nodes_under(lop, {op_param: EnumVal('Operator', member)})
+        kinds = set(type(x.op) for n in nodes if n.kind in ('stmt', 'return')
+                    and n.ast is not None for e in n.exprs()
+                    for x in ast.walk(e) if isinstance(x, ast.BoolOp))
+        seen_ops[member] = sorted(k.__name__ for k in kinds)
+        ok = ok and kinds == {want}
+    if not any(seen_ops.values()):
+        raise AnalysisError('VmMath.logical_op: no boolean connective found')
+    R.check(lop, 'AND -> %s, OR -> %s' % (seen_ops['AND'], seen_ops['OR']), ok,
+            'Operator.AND / OR are evaluated with the wrong connective')
 
 
 @rule('R02.d', ('C02',), '[random a b] draws from the closed range a..b',
